@@ -459,6 +459,15 @@ void vf_block_until(uint32_t *nonzero) { __CPROVER_assume(*nonzero != 0); }
 void vf_wait_started(uint32_t n) { __CPROVER_assume(vf_threads_started >= n); }
 #endif
 
+#ifdef VF_UNTAG
+uint8_t *vf_untag_obj[VF_UNTAG_MAX];
+uint32_t vf_untag_n;
+void vf_untag_register(uint8_t *p) {
+  __CPROVER_assert(vf_untag_n < VF_UNTAG_MAX, "rt: too many vf_untag_register calls (raise VF_UNTAG_MAX)");
+  if (vf_untag_n < VF_UNTAG_MAX) vf_untag_obj[vf_untag_n++] = p;
+}
+#endif
+
 /* --- exceptions as opaque tokens ------------------------------------------------------------ */
 #ifndef VF_SEQ
 __thread void *vf_caught;
